@@ -24,6 +24,13 @@ def check(repo: Repo, rep: Report) -> None:
         "`window is None` are identity tests (not truthiness, so 0 is a real bound). The ScheduledObserver handshake "
         "is C32's subject. Exact retained contents are not decided.")
     SC.rules(rep, {"B1-snapshot": 3, "B2-state-before-callout": 3, "B3-subscribe-branches": 2, "B5-dispose": 1})
+    # state fields are read under the lock only; fan-outs deliver parameters / locked snapshots
+    _cls = repo.fn("reactivex/subject/replaysubject.py", "ReplaySubject")
+    SC.rule_locked_reads(rep, _cls)
+    for _mn in ("_on_next_core", "_on_error_core", "_on_completed_core"):
+        _m = _cls.child(_mn) or repo.fn("reactivex/subject/subject.py", "Subject").child(_mn)
+        if _m is not None:
+            SC.rule_delivery_argument(rep, _m)
     rep.rule("RP1-subscribe-order", "trim -> register -> replay queue in order -> terminal replay, in one locked region; activate after", floor=3)
     rep.rule("RP2-buffer-before-delivery", "cores append / trim the buffer under the lock before delivering, then activate", floor=4)
     rep.rule("RP3-trim-bounds", "trim drops from the front iff len > buffer_size / age > window; None tests are identity tests", floor=4)
